@@ -47,6 +47,7 @@ ReadOps == {"ReadFile", "Ls", "LsRecursive", "LsRecursiveFiles", "ListDirTree", 
 OneOps == {"MkDir", "WriteFile", "Touch", "Rm", "CleanDir"} \cup ReadOps
 TwoOps == {"CopyToFile", "CopyToDirectory", "Copy", "Move"}
 CopyOps == {"CopyToFile", "CopyToDirectory", "Copy"}
+PathOps == {"ToRelative", "ToAbsolute", "RelAbsRoundTrip"}      \* pure path conversions: the tree plays no part
 
 VARIABLES dirs, files, hist, init
 vars == <<dirs, files, hist, init>>
@@ -233,8 +234,9 @@ Move(a, b, trailing) ==
     ELSE IF IsFile(files, b) THEN Conflict({a, b})
     ELSE IF a = b THEN Res("defined", "ok", {}, dirs, files, {a, b})
     ELSE IF IsDir(dirs, b)
-         THEN \* named deviation: the content of a is merged into b (not moved below it); only without name clashes
-              IF IsPrefix(b, a) \/ \E q \in Children(dirs, files, a) : Exists(dirs, files, Rebase(q, a, b)) THEN Res("unspecified", "any", {}, dirs, files, {a, b})
+         THEN \* named deviation: the content of a is merged into b (not moved below it), recursively: directories merge, a file replaces a file
+              IF IsPrefix(b, a) THEN Res("unspecified", "any", {}, dirs, files, {a, b})
+              ELSE IF MergeConflict(a, b) THEN Conflict({a, b})
               ELSE LET gone == {a} \cup Under(dirs, files, a) IN
                    Res("defined", "ok", {}, MergedDirs(a, b) \ gone, Restrict(MergedFiles(a, b), DOMAIN MergedFiles(a, b) \ gone), {a, b})
     ELSE LET gone == {a} \cup Under(dirs, files, a) IN
@@ -245,6 +247,18 @@ Two(op, a, b, trailing) ==
       [] op = "CopyToDirectory" -> CopyToDirectory(a, b)
       [] op = "Copy" -> Copy(a, b, trailing)
       [] op = "Move" -> Move(a, b, trailing)
+
+\* ---- path conversions --------------------------------------------------------------------------------------------
+\* the path that leads from directory a to b: one ".." per component of a beyond the common prefix, then the rest of b
+RECURSIVE CommonLen(_, _)
+CommonLen(a, b) == IF a = <<>> \/ b = <<>> \/ Head(a) # Head(b) THEN 0 ELSE 1 + CommonLen(Tail(a), Tail(b))
+Ups(n) == [i \in 1..n |-> ".."]
+RelPath(a, b) == LET k == CommonLen(a, b) IN Ups(Len(a) - k) \o SubSeq(b, k + 1, Len(b))
+RelStr(p) == IF p = <<>> THEN "." ELSE PathStr(p)
+PathCall(op, a, b) ==
+    CASE op = "ToRelative" -> Same("defined", "ok", {RelStr(RelPath(a, b))})
+      [] op = "ToAbsolute" -> Same("defined", "ok", {RelStr(a \o b)})              \* b taken relative to a, reported relative to the sandbox root
+      [] op = "RelAbsRoundTrip" -> Same("defined", "ok", {RelStr(b)})              \* ToAbsolute(a, ToRelative(a, b)) = b
 
 \* ---- behaviours ---------------------------------------------------------------------------------------------------------
 InitTrees == { [d |-> {}, f |-> <<>>],
@@ -261,7 +275,7 @@ Record(op, a, b, c, trailing, r) ==
      tree |-> TreeStr(r.dirs, r.files), changes |-> {PathStr(q) : q \in r.roots}]
 
 Apply(op, a, b, c, trailing) ==
-    LET r == IF op \in OneOps THEN One(op, a, c) ELSE Two(op, a, b, trailing) IN
+    LET r == IF op \in OneOps THEN One(op, a, c) ELSE IF op \in PathOps THEN PathCall(op, a, b) ELSE Two(op, a, b, trailing) IN
     /\ dirs' = r.dirs /\ files' = r.files
     /\ hist' = Append(hist, Record(op, a, b, c, trailing, r))
     /\ UNCHANGED init
@@ -273,13 +287,14 @@ Next == /\ Len(hist) < MaxCalls
                     fresh == {d \o <<n>> : d \in (dirs \cup {<<>>}), n \in Names}      \* new names inside directories that exist
                 IN \E k \in {RandomElement(1..10)} :
                    \E op \in {IF k <= 4 THEN RandomElement({"MkDir", "WriteFile", "Touch", "Rm", "CleanDir"})
-                               ELSE IF k <= 8 THEN RandomElement(TwoOps) ELSE RandomElement(ReadOps)} :
+                               ELSE IF k <= 8 THEN RandomElement(TwoOps) ELSE IF k = 9 THEN RandomElement(ReadOps \cup PathOps) ELSE RandomElement(ReadOps)} :
                    \E ka \in {RandomElement(1..4)}, kb \in {RandomElement(1..4)}, kc \in {RandomElement(1..6)}, kt \in {RandomElement(1..4)} :
                    \E a \in {IF ka = 1 THEN RandomElement(ArgPaths) ELSE RandomElement(known \cup fresh)} :
                    \E b \in {IF kb = 1 THEN RandomElement(ArgPaths) ELSE RandomElement(known \cup fresh)} :
                    \E c \in {IF kc = 1 THEN "" ELSE RandomElement({"x", "y"})} :
-                      Apply(op, a, IF op \in TwoOps THEN b ELSE <<>>, IF op = "WriteFile" THEN c ELSE "", op \in {"Copy", "Move"} /\ kt = 1)
+                      Apply(op, a, IF op \in (TwoOps \cup PathOps) THEN b ELSE <<>>, IF op = "WriteFile" THEN c ELSE "", op \in {"Copy", "Move"} /\ kt = 1)
            ELSE \/ \E op \in OneOps, a \in ArgPaths : Apply(op, a, <<>>, IF op = "WriteFile" THEN "x" ELSE "", FALSE)
+                \/ \E op \in PathOps, a \in ArgPaths, b \in ArgPaths : Apply(op, a, b, "", FALSE)
                 \/ \E op \in TwoOps, a \in ArgPaths, b \in ArgPaths, trailing \in BOOLEAN :
                        (trailing => op \in {"Copy", "Move"}) /\ Apply(op, a, b, "", trailing)
 Spec == Init /\ [][Next]_vars
@@ -289,7 +304,7 @@ TreeWellFormed == WellFormed(dirs, files)
 LastCall == hist[Len(hist)]
 \* (checked as action properties through the history: the previous tree is what the previous record says)
 PrevTree == IF Len(hist) = 1 THEN init ELSE hist[Len(hist) - 1].tree
-ReadOnlyCallsChangeNothing == (hist # <<>> /\ LastCall.op \in ReadOps) => LastCall.tree = PrevTree
+ReadOnlyCallsChangeNothing == (hist # <<>> /\ LastCall.op \in (ReadOps \cup PathOps)) => LastCall.tree = PrevTree
 UndefinedCallsChangeNothingInTheModel == (hist # <<>> /\ LastCall.class # "defined") => LastCall.tree = PrevTree
 FailedCallsChangeNothing == (hist # <<>> /\ LastCall.class = "defined" /\ LastCall.expect # "ok") => LastCall.tree = PrevTree
 
@@ -305,6 +320,7 @@ ChangesWithinFrame ==
           LET r == hist'[Len(hist')]
               roots == IF r.op \in OneOps THEN {r.a} ELSE IF r.op = "Move" THEN {r.a, r.b} ELSE {r.b}
           IN IF r.op \in ReadOps THEN dirs' = dirs /\ files' = files
+             ELSE IF r.op \in PathOps THEN dirs' = dirs /\ files' = files
              ELSE \A q \in (Entries(dirs, files) \cup Entries(dirs', files')) : Differs(q) => \E t \in roots : IsPrefix(t, q) \/ IsPrefix(q, t) ]_vars
 
 Emit == Len(hist) = MaxCalls => PrintT(<<"BEHAVIOUR", ToJson([init |-> init, calls |-> hist])>>)
